@@ -4,8 +4,9 @@ package hx
 //
 // A storage wrapper around the unmodified *storage.MemoryStore counts the storage calls of one request,
 // logs (method, result class), injects the planned fault at the k-th call and, when the flag is set,
-// implements storage.Transactional (BeginTX copies the tables, Rollback puts the copies back, Commit
-// drops them).  The provider is compose.ComposeAllEnabled over the wrapper.
+// implements storage.Transactional (BeginTX copies the tables and returns a context that carries the
+// transaction, Rollback puts the copies back, Commit drops them; a write whose context does not carry the open
+// transaction is not part of it).  The provider is compose.ComposeAllEnabled over the wrapper.
 //
 // Driver: for every flow (code redemption without / with PKCE / with PKCE but no verifier / replayed
 // code, refresh, refresh reuse, device poll, password, client_credentials, revocation with the three
@@ -111,6 +112,23 @@ func (s *faultStore) fault(m string, peek func() error) error {
 	return faultErr(kind)
 }
 
+// write performs a mutating storage call.  The transaction lives in the context (storage/transactional.go: BeginTX
+// returns the context to propagate): a write made while a transaction is open, with a context that does not carry
+// it, is outside the transaction - it lands in the image a rollback restores as well.
+type txKey struct{}
+
+func (s *faultStore) write(ctx context.Context, m string, f func() error) error {
+	if s.snap != nil && ctx.Value(txKey{}) == nil {
+		live := s.takeSnap()
+		s.restore(s.snap)
+		_ = f()
+		s.snap = s.takeSnap()
+		s.restore(live)
+		s.notes = append(s.notes, "write outside the open transaction: "+m)
+	}
+	return f()
+}
+
 func (s *faultStore) done(m string, err error) {
 	if s.armed {
 		s.calls = append(s.calls, callRec{m, classOf(err)})
@@ -130,7 +148,7 @@ func (s *faultStore) InvalidateAuthorizeCodeSession(ctx context.Context, code st
 	if f := s.fault("InvalidateCode", nil); f != nil {
 		return f
 	}
-	err := s.valueStore.InvalidateAuthorizeCodeSession(ctx, code)
+	err := s.write(ctx, "InvalidateAuthorizeCodeSession", func() error { return s.valueStore.InvalidateAuthorizeCodeSession(ctx, code) })
 	s.done("InvalidateCode", err)
 	return err
 }
@@ -148,7 +166,7 @@ func (s *faultStore) DeletePKCERequestSession(ctx context.Context, sig string) e
 	if f := s.fault("DeletePkce", nil); f != nil {
 		return f
 	}
-	err := s.valueStore.DeletePKCERequestSession(ctx, sig)
+	err := s.write(ctx, "DeletePKCERequestSession", func() error { return s.valueStore.DeletePKCERequestSession(ctx, sig) })
 	s.done("DeletePkce", err)
 	return err
 }
@@ -157,7 +175,7 @@ func (s *faultStore) CreateAccessTokenSession(ctx context.Context, sig string, r
 	if f := s.fault("CreateAT", nil); f != nil {
 		return f
 	}
-	err := s.valueStore.CreateAccessTokenSession(ctx, sig, req)
+	err := s.write(ctx, "CreateAccessTokenSession", func() error { return s.valueStore.CreateAccessTokenSession(ctx, sig, req) })
 	s.done("CreateAT", err)
 	return err
 }
@@ -175,7 +193,7 @@ func (s *faultStore) CreateRefreshTokenSession(ctx context.Context, sig, atSig s
 	if f := s.fault("CreateRT", nil); f != nil {
 		return f
 	}
-	err := s.valueStore.CreateRefreshTokenSession(ctx, sig, atSig, req)
+	err := s.write(ctx, "CreateRefreshTokenSession", func() error { return s.valueStore.CreateRefreshTokenSession(ctx, sig, atSig, req) })
 	s.done("CreateRT", err)
 	return err
 }
@@ -198,7 +216,7 @@ func (s *faultStore) DeleteRefreshTokenSession(ctx context.Context, sig string) 
 	if f := s.fault("DeleteRT", nil); f != nil {
 		return f
 	}
-	err := s.valueStore.DeleteRefreshTokenSession(ctx, sig)
+	err := s.write(ctx, "DeleteRefreshTokenSession", func() error { return s.valueStore.DeleteRefreshTokenSession(ctx, sig) })
 	s.done("DeleteRT", err)
 	return err
 }
@@ -207,7 +225,7 @@ func (s *faultStore) RevokeRefreshToken(ctx context.Context, id string) error {
 	if f := s.fault("RevokeRT", nil); f != nil {
 		return f
 	}
-	err := s.valueStore.RevokeRefreshToken(ctx, id)
+	err := s.write(ctx, "RevokeRefreshToken", func() error { return s.valueStore.RevokeRefreshToken(ctx, id) })
 	s.done("RevokeRT", err)
 	return err
 }
@@ -216,7 +234,7 @@ func (s *faultStore) RevokeAccessToken(ctx context.Context, id string) error {
 	if f := s.fault("RevokeAT", nil); f != nil {
 		return f
 	}
-	err := s.valueStore.RevokeAccessToken(ctx, id)
+	err := s.write(ctx, "RevokeAccessToken", func() error { return s.valueStore.RevokeAccessToken(ctx, id) })
 	s.done("RevokeAT", err)
 	return err
 }
@@ -225,7 +243,7 @@ func (s *faultStore) RotateRefreshToken(ctx context.Context, id string, sig stri
 	if f := s.fault("RotateRT", nil); f != nil {
 		return f
 	}
-	err := s.valueStore.RotateRefreshToken(ctx, id, sig)
+	err := s.write(ctx, "RotateRefreshToken", func() error { return s.valueStore.RotateRefreshToken(ctx, id, sig) })
 	s.done("RotateRT", err)
 	return err
 }
@@ -243,7 +261,7 @@ func (s *faultStore) InvalidateDeviceCodeSession(ctx context.Context, sig string
 	if f := s.fault("InvalidateDevice", nil); f != nil {
 		return f
 	}
-	err := s.valueStore.InvalidateDeviceCodeSession(ctx, sig)
+	err := s.write(ctx, "InvalidateDeviceCodeSession", func() error { return s.valueStore.InvalidateDeviceCodeSession(ctx, sig) })
 	s.done("InvalidateDevice", err)
 	return err
 }
@@ -261,7 +279,7 @@ func (s *faultStore) DeleteOpenIDConnectSession(ctx context.Context, code string
 	if f := s.fault("DeleteOidc", nil); f != nil {
 		return f
 	}
-	err := s.valueStore.DeleteOpenIDConnectSession(ctx, code)
+	err := s.write(ctx, "DeleteOpenIDConnectSession", func() error { return s.valueStore.DeleteOpenIDConnectSession(ctx, code) })
 	s.done("DeleteOidc", err)
 	return err
 }
@@ -279,7 +297,7 @@ func (s *faultStore) DeleteAccessTokenSession(ctx context.Context, sig string) e
 	if f := s.fault("DeleteAT", nil); f != nil {
 		return f
 	}
-	err := s.valueStore.DeleteAccessTokenSession(ctx, sig)
+	err := s.write(ctx, "DeleteAccessTokenSession", func() error { return s.valueStore.DeleteAccessTokenSession(ctx, sig) })
 	s.done("DeleteAT", err)
 	return err
 }
@@ -310,7 +328,7 @@ func (s *txFaultStore) BeginTX(ctx context.Context) (context.Context, error) {
 	}
 	s.snap = s.takeSnap()
 	s.done("Begin", nil)
-	return ctx, nil
+	return context.WithValue(ctx, txKey{}, true), nil
 }
 
 func (s *txFaultStore) Commit(ctx context.Context) error {
